@@ -33,11 +33,15 @@ ATOMS = [
     ("xs:dateTime('2000-01-01T00:00:00Z')", ['DateTime10', '2000-01-01T00:00:00Z']), ("xs:date('2000-01-01')", ['Date10', '2000-01-01']),
     ("xs:gYear('2000')", ['GregorianYear10', '2000']), ("xs:time('00:00:00')", ['Time', '00:00:00']),
     ("xs:dateTime('2000-01-01T00:00:00')", ['DateTime10', '2000-01-01T00:00:00']),
+    # the same instant in different local years (and in the same local year)
+    ("xs:dateTime('2000-01-01T00:00:00+01:00')", ['DateTime10', '2000-01-01T00:00:00+01:00']),
+    ("xs:dateTime('1999-12-31T23:00:00Z')", ['DateTime10', '1999-12-31T23:00:00Z']),
+    ("xs:dateTime('2000-01-01T01:00:00+01:00')", ['DateTime10', '2000-01-01T01:00:00+01:00']),
 ]
 KEY_GROUPS = {
     'int': [0, 1, 2, 3, 4], 'decimal': [5, 6, 7], 'double': [8, 9, 11, 12, 13], 'nan': [10, 14], 'float': [15],
     'string': [16, 17, 18, 19], 'uri': [20], 'untyped': [21, 22], 'bool': [23, 24], 'other': [25, 26, 27],
-    'inexact': [28, 29, 30, 31, 32], 'binary': [33, 34], 'datetime': [35, 36, 37, 38, 39, 26],
+    'inexact': [28, 29, 30, 31, 32], 'binary': [33, 34], 'datetime': [35, 36, 37, 38, 39, 26, 40, 41, 42],
 }
 
 MAP_OPS = ['map:put', 'map:put', 'map:remove', 'map:merge', 'map:merge', 'map:entry', 'map-ctor', 'map:get',
@@ -65,6 +69,8 @@ ARRAY_OPS = ['sq-ctor', 'curly-ctor', 'array:put', 'array:append', 'array:append
              'array:remove', 'array:subarray', 'array:head', 'array:tail', 'array:reverse', 'array:join',
              'array:flatten', 'array:get', 'array:size', 'array-call', 'array-lookup-all', 'array-lookup', 'array-lookup',
              'let-alias-append', 'let-alias-put', 'nest-arr-map', 'nest-arr-arr']
+WRAPPABLE = ('map:get', 'map:contains', 'map:put', 'map:remove', 'map-call', 'map-lookup', 'array:get', 'array:remove',
+             'array-call', 'array-lookup', 'array:put')
 DUPS = ['use-first', 'use-last', 'combine', 'reject', 'use-any', None]
 
 
@@ -110,6 +116,8 @@ def expr_and_model(op, pool, template=False):
     n = len(pool)
     args = [fix_refs(a, n) for a in op['args']]
     r = ['$a%d' % i for i in range(len(args))] if template else [render(a) for a in args]
+    if op.get('wrap') is not None and op['wrap'] < len(r):
+        r[op['wrap']] = '[%s]' % r[op['wrap']]
     v = lambda i: mval(args[i], pool)   # noqa: E731
     name = op['name']
     if name.startswith('u:'):
@@ -250,7 +258,7 @@ def gen_case(rng, tier):
     atoms = sorted(set(i for g in enabled for i in KEY_GROUPS[g]))
     if rng.random() < 0.15:
         # few keys of one collision family: the same key (by the same-key relation) meets again and again
-        atoms = rng.choice([[10, 14, 16], [10, 14], [1, 5, 8, 15], [1, 5, 8, 15, 23], [16, 20, 21], [0, 7, 12, 13, 24], [28, 29, 32], [30, 31, 28], [33, 34, 16], [35, 36, 37, 38, 39, 26]])
+        atoms = rng.choice([[10, 14, 16], [10, 14], [1, 5, 8, 15], [1, 5, 8, 15, 23], [16, 20, 21], [0, 7, 12, 13, 24], [28, 29, 32], [30, 31, 28], [33, 34, 16], [35, 36, 37, 38, 39, 26], [40, 41, 42, 35]])
         enabled = ['few-keys']
     nops = rng.randint(3, 40 if thorough else 18)
     fail_rate = rng.choice([0.0, 0.1, 0.25])
@@ -373,6 +381,8 @@ def gen_case(rng, tier):
             op['args'] = [a, index_for(a)]
         else:
             raise ValueError(name)
+        if name in WRAPPABLE and rng.random() < 0.12:
+            op['wrap'] = 1      # the key / position is given as a one-member array (atomized by the conversion rules)
         ops.append(op)
         try:
             _, model = expr_and_model(op, pool)
